@@ -166,7 +166,12 @@ def _mk_callable(rt, path, nd, entry):
     argt = "(" + "".join(f"({p!r}, {p}), " for p in orig) + ")"
     fname = nd.get("fname", nd["name"])
     is_async = nd["is_async"] and entry == "call"
-    if is_async:
+    is_gen = nd["fn"] == "gen" and entry == "call"
+    if is_gen and is_async:        # async generator: the runner collects the yielded items into a list
+        src = f"async def {fname}({params}):\n    r = await RT.acall({path!r}, {argt})\n    yield r + '#0'\n    yield r + '#1'\n"
+    elif is_gen:                   # generator
+        src = f"def {fname}({params}):\n    r = RT.call({path!r}, {argt})\n    yield r + '#0'\n    yield r + '#1'\n"
+    elif is_async:
         src = f"async def {fname}({params}):\n    return await RT.acall({path!r}, {argt})\n"
     else:
         src = f"def {fname}({params}):\n    return RT.{entry}({path!r}, {argt})\n"
